@@ -341,7 +341,7 @@ class PX:
         if top and a.kwarg and a.kwarg.arg in kwargs:
             extra_kw.update(kwargs.pop(a.kwarg.arg))
         allowed = set(pos) | {x.arg for x in a.kwonlyargs}
-        if top and not a.kwarg and any(k not in allowed for k in kwargs) and not args:
+        if top and any(k not in allowed for k in kwargs) and not args:
             # a rule names the explored function's parameters as they are called on the pinned tree; a renamed parameter of a
             # private helper is matched by position (the rules list the arguments in declaration order)
             free = [n for n in pos]
@@ -854,7 +854,33 @@ class PX:
         elif isinstance(t, (ast.Tuple, ast.List)):
             n = len(t.elts)
             if any(isinstance(e, ast.Starred) for e in t.elts):
-                raise Unsupported(f"{fr.mod}:{t.lineno} starred unpack")
+                stars = [i for i, e in enumerate(t.elts) if isinstance(e, ast.Starred)]
+                if len(stars) != 1:
+                    raise Unsupported(f"{fr.mod}:{t.lineno} starred unpack")
+                si, after = stars[0], n - stars[0] - 1
+                if isinstance(v, Sym):
+                    self.emit("unpack", v.tag, (n - 1,), node=t, frame=fr)
+                    for i in range(si):
+                        self.assign(t.elts[i], self.sym_index(v, i), fr)
+                    self.assign(t.elts[si].value, Sym(f"{v.tag}[{si}:{-after if after else None}]"), fr)
+                    for j in range(after):
+                        self.assign(t.elts[si + 1 + j], self.sym_index(v, -(after - j)), fr)
+                    return
+                if isinstance(v, (Iter, _Gen)):
+                    v = list(v)
+                if isinstance(v, dict):
+                    v = list(v.keys())
+                if not isinstance(v, (tuple, list, str, bytes, bytearray)):
+                    raise Unsupported(f"{fr.mod}:{t.lineno} starred unpack of {v!r}")
+                if len(v) < n - 1:
+                    raise Exc("ValueError", (f"not enough values to unpack (expected at least {n - 1}, got {len(v)})",), origin=_text(t))
+                seq = list(v)
+                for i in range(si):
+                    self.assign(t.elts[i], seq[i], fr)
+                self.assign(t.elts[si].value, seq[si:len(seq) - after], fr)
+                for j in range(after):
+                    self.assign(t.elts[si + 1 + j], seq[len(seq) - after + j], fr)
+                return
             if isinstance(v, Sym):
                 self.emit("unpack", v.tag, (n,), node=t, frame=fr)
                 vals = [self.sym_index(v, i) for i in range(n)]
@@ -1827,6 +1853,10 @@ class PX:
                 return r
             cal = f"{_short(fval.recv)}.{target.name}" if isinstance(fval, Bound) else getattr(target, "short", None)
             return self.opaque(text, args, kw, fr, node, awaited, cal)
+        if isinstance(fval, Obj) and isinstance(fval.cls, ClassRef) and fval.cls.has("__call__"):
+            m = fval.cls.lookup("__call__")
+            if isinstance(m, FuncRef):
+                return self.do_call(Bound(fval, m), text, args, kw, fr, node, awaited)
         if isinstance(fval, ClassRef):
             return self.construct(fval, text, args, kw, fr, node)
         if isinstance(fval, TypeRef) and fval.name == "builtins.int.from_bytes" and args and isinstance(args[0], (bytes, bytearray)):
@@ -1959,6 +1989,16 @@ class PX:
         fields.update(kw)
         self.emit("new", cls.name, args, kw, node=node, frame=fr)
         o = Obj(cls, fields, tag=f"{cls.name}#{self._count('new:' + cls.name)}")
+        # a small helper class of the module being explored (not a struct / dataclass): its initialiser is run, so that the
+        # state it sets up (a future, an accumulator list) exists as in the real object
+        try:
+            init = cls.method("__init__")
+        except KeyError:
+            init = None
+        cur = fr.func if fr is not None else None
+        if init is not None and not (cls.is_struct or _is_dataclass(cls)) and cur is not None and init.mod == getattr(cur, "mod", None) \
+                and (fr is None or fr.depth < self.max_depth) and getattr(cur, "cls", None) is not None and cls.name.startswith("_"):
+            self.call_function(init, o, list(args), dict(kw), fr)
         return o
 
     def opaque(self, text, args, kw, fr, node, awaited, callee=None):
@@ -2077,6 +2117,10 @@ class PX:
                 return a.cls
             if isinstance(a, ZInt):
                 return TypeRef(f"zigpy.types.{'' if a.signed else 'u'}int{a.bits}{'s' if a.signed else '_t'}")
+            if isinstance(a, NT):
+                return a.cref
+            if isinstance(a, (bytes, bytearray, str, list, tuple, dict, set, frozenset, bool, int, float)) or a is None:
+                return TypeRef("builtins." + type(a).__name__)
             return Sym(f"type({_short(a)})")
         if n == "iter" and len(args) == 1:
             a = args[0]
@@ -2173,6 +2217,17 @@ class PX:
                 return {}
             if isinstance(args[0], Obj):
                 return {k: v for k, v in args[0].fields.items() if isinstance(k, str)}
+        if n in ("sorted", "min", "max") and isinstance(kw.get("key"), (Closure, FuncRef, Bound, Partial, _OpCallable, TypeRef)) and args \
+                and not isinstance(args[0], Sym):
+            items = self._concrete_iter(args[0], fr, node) if len(args) == 1 else list(args)
+            keyed = [(self._apply(kw["key"], [x], fr, node, text), i, x) for i, x in enumerate(items)]
+            if any(isinstance(k_, (Sym, Obj)) for k_, _, _ in keyed):
+                return Sym(f"{n}({_short(args[0])})")
+            kv = lambda k_: k_.value if isinstance(k_, Member) else k_
+            if n == "sorted":
+                return [x for _, _, x in sorted(keyed, key=lambda t_: (kv(t_[0]), t_[1]), reverse=bool(kw.get("reverse", False)))]
+            pick = (min if n == "min" else max)(keyed, key=lambda t_: kv(t_[0]))
+            return pick[2]
         if n in PURE_BUILTINS:
             pyargs = []
             for a in args:
